@@ -54,7 +54,17 @@ def route(c, env):
 
 def hash_key(salt, splitters, env) -> str:
     """salt followed by str() of the splitter values in alphabetical order of field name."""
-    return (salt or "") + "".join(str(env[n]) for n in sorted(set(splitters)))
+    return (salt or "") + "".join(_str(env[n]) for n in sorted(set(splitters)))
+
+
+def _str(v) -> str:
+    """str(v) as the language of the property means it: for an int its decimal digits, whatever interpreter-wide digit limit
+    is in force (CPython's default refuses > 4300 digits: such ints are outside the property and are never enumerated)"""
+    if isinstance(v, int) and not isinstance(v, bool):
+        from ..common import int_str
+
+        return int_str(v)
+    return str(v)
 
 
 def hash_k(key: str) -> int:
